@@ -1,51 +1,61 @@
 (* C05 bridge: the integer expressions regenerated from the source on this run (C05/Gen.v, written
-   by translator/reduce_c05.py) are, for all arguments, the expressions the model is built from.
-   If an index expression of _sliding_window_transform, of the recursive / dirrec feedback loops or
-   of _get_last_window changes in the source, the corresponding lemma stops checking. *)
-From Coq Require Import ZArith Bool Lia ZifyBool.
-Require Import SkV.C05.Model SkV.C05.Hist SkV.C05.Gen.
+   by translator/reduce_c05.py by symbolic execution: canonical linear forms over the base symbols
+   wl, fm, n, k, h, i, q, c) are, for all arguments, the expressions the model is built from.
+   The proofs are semantic (`unfold; lia`): any source expression with the same value proves, an
+   expression with another value does not.  If an index expression of _sliding_window_transform, of
+   the recursive / dirrec feedback loops or of _get_last_window changes its VALUE in the source, the
+   corresponding lemma stops checking. *)
+From Coq Require Import ZArith List Bool Lia ZifyBool.
+Require Import SkV.C05.Model SkV.C05.Proofs SkV.C05.Hist SkV.C05.Gen.
 Open Scope Z_scope.
 
+(* _sliding_window_transform; e = effective_window_length = swt_ewl wl fm, whether or not the source
+   holds it in a variable *)
 Lemma bridge_reject wl fm n : gen_reject wl fm n = swt_reject wl fm n.
 Proof. unfold gen_reject, swt_reject. lia. Qed.
-Lemma bridge_ewl wl fm : gen_ewl wl fm = swt_ewl wl fm.
-Proof. unfold gen_ewl, swt_ewl. lia. Qed.
-Lemma bridge_alloc_rows n e : gen_alloc_rows n e = swt_alloc_rows n e.
-Proof. unfold gen_alloc_rows, swt_alloc_rows. lia. Qed.
-Lemma bridge_alloc_cols e : gen_alloc_cols e = swt_alloc_cols e.
-Proof. unfold gen_alloc_cols, swt_alloc_cols. lia. Qed.
-Lemma bridge_nk e : gen_nk e = swt_nk e.
-Proof. unfold gen_nk, swt_nk. lia. Qed.
-Lemma bridge_i e k : gen_i e k = swt_i e k.
-Proof. unfold gen_i, swt_i. lia. Qed.
-Lemma bridge_j n e k : gen_j n e k = swt_j n e k.
-Proof. unfold gen_j, swt_j. lia. Qed.
-Lemma bridge_trunc_lo e : gen_trunc_lo e = swt_trunc_lo e.
-Proof. unfold gen_trunc_lo, swt_trunc_lo. lia. Qed.
-Lemma bridge_trunc_hi e : gen_trunc_hi e = swt_trunc_hi e.
-Proof. unfold gen_trunc_hi, swt_trunc_hi. lia. Qed.
+Lemma bridge_alloc_rows wl fm n : gen_alloc_rows wl fm n = swt_alloc_rows n (swt_ewl wl fm).
+Proof. unfold gen_alloc_rows, swt_alloc_rows, swt_ewl. lia. Qed.
+Lemma bridge_alloc_cols wl fm : gen_alloc_cols wl fm = swt_alloc_cols (swt_ewl wl fm).
+Proof. unfold gen_alloc_cols, swt_alloc_cols, swt_ewl. lia. Qed.
+Lemma bridge_nk wl fm : gen_nk wl fm = swt_nk (swt_ewl wl fm).
+Proof. unfold gen_nk, swt_nk, swt_ewl. lia. Qed.
+Lemma bridge_i wl fm k : gen_i wl fm k = swt_i (swt_ewl wl fm) k.
+Proof. unfold gen_i, swt_i, swt_ewl. lia. Qed.
+Lemma bridge_j wl fm n k : gen_j wl fm n k = swt_j n (swt_ewl wl fm) k.
+Proof. unfold gen_j, swt_j, swt_ewl. lia. Qed.
+Lemma bridge_trunc_lo wl fm : gen_trunc_lo wl fm = swt_trunc_lo (swt_ewl wl fm).
+Proof. unfold gen_trunc_lo, swt_trunc_lo, swt_ewl. lia. Qed.
+(* the (absolute) stop of the truncation Zt[e:-e]: the allocated rows minus e *)
+Lemma bridge_trunc_stop wl fm n :
+  gen_trunc_stop wl fm n = swt_alloc_rows n (swt_ewl wl fm) - swt_trunc_hi (swt_ewl wl fm).
+Proof. unfold gen_trunc_stop, swt_alloc_rows, swt_trunc_hi, swt_ewl. lia. Qed.
 Lemma bridge_tgt_col wl h : gen_tgt_col wl h = swt_tgt_col wl h.
 Proof. unfold gen_tgt_col, swt_tgt_col. lia. Qed.
 Lemma bridge_feat_hi wl : gen_feat_hi wl = swt_feat_hi wl.
 Proof. unfold gen_feat_hi, swt_feat_hi. lia. Qed.
+
+(* the recursive and dirrec prediction loops *)
 Lemma bridge_rec_lo wl i : gen_rec_lo wl i = rec_lo wl i.
 Proof. unfold gen_rec_lo, rec_lo. lia. Qed.
 Lemma bridge_rec_hi wl i : gen_rec_hi wl i = rec_hi wl i.
 Proof. unfold gen_rec_hi, rec_hi. lia. Qed.
 Lemma bridge_rec_fb wl i : gen_rec_fb wl i = rec_fb wl i.
 Proof. unfold gen_rec_fb, rec_fb. lia. Qed.
+(* length of the pre-allocated buffer: the model's `window ++ zeros fm` *)
+Lemma bridge_rec_buf (w : list Z) fm : 0 <= fm -> zlen (w ++ zeros fm) = gen_rec_buf (zlen w) fm.
+Proof. intro H. rewrite zlen_app, zlen_zeros. unfold gen_rec_buf. lia. Qed.
 Lemma bridge_dr_hi wl i : gen_dr_hi wl i = dr_hi wl i.
 Proof. unfold gen_dr_hi, dr_hi. lia. Qed.
 Lemma bridge_dr_fb wl i : gen_dr_fb wl i = dr_fb wl i.
 Proof. unfold gen_dr_fb, dr_fb. lia. Qed.
 Lemma bridge_dr_fit_hi wl i : gen_dr_fit_hi wl i = dr_fit_hi wl i.
 Proof. unfold gen_dr_fit_hi, dr_fit_hi. lia. Qed.
-Lemma bridge_lw_shift wl : gen_lw_shift wl = lw_shift wl.
-Proof. unfold gen_lw_shift, lw_shift. lia. Qed.
+Lemma bridge_dr_buf (w : list Z) q : 0 <= q -> zlen (w ++ zeros q) = gen_dr_buf (zlen w) q.
+Proof. intro H. rewrite zlen_app, zlen_zeros. unfold gen_dr_buf. lia. Qed.
 
-(* the window `_get_last_window` selects for every reducer class (inherited from
-   _BaseWindowForecaster, see translator/reduce_c05.py): the rows of the remembered series whose
-   LABEL lies in [cutoff - window_length + 1, cutoff] - the model's get_last_window *)
+(* the window `_get_last_window` selects for every reducer class (resolved through the class
+   hierarchy, see translator/reduce_c05.py): the rows of the remembered series whose LABEL lies in
+   [cutoff - window_length + 1, cutoff] - the model's get_last_window *)
 Lemma bridge_lw_lo wl c : gen_lw_lo wl c = c + lw_shift wl.
 Proof. unfold gen_lw_lo, lw_shift. lia. Qed.
 Lemma bridge_lw_hi wl c : gen_lw_hi wl c = c.
